@@ -112,6 +112,9 @@ func (c *caseRun) closeRace(gateKind string, specs []batchSpec, st *hlib.Stats) 
 		case <-time.After(150 * time.Millisecond):
 			// did not return: NOT acknowledged (the caller is abandoned; on the unchanged tree it blocks for ever)
 			st.Count("closerace:blocked")
+			c.mu.Lock()
+			c.nblocked++
+			c.mu.Unlock()
 			c.record(fmt.Sprintf("blocked %d", specs[i].tok))
 		}
 	}
